@@ -4,7 +4,7 @@ Open Scope Z_scope.
 
 Definition mf (name ctype data : bytes) : mfile := Build_mfile name ctype data.
 Definition fm (vs : list (bytes * list bytes)) (fs : list (bytes * list mfile)) : mform := Build_mform vs fs.
-Definition rq (mp clpos : bool) (files : list Z) (wf : bool) (len close : Z) (short : bool) : reqd := Build_reqd mp clpos files wf len close short.
+Definition rq (mp clpos : bool) (files : list Z) (wf : bool) (len close : Z) (short : bool) (enc : Z) : reqd := Build_reqd mp clpos files wf len close short enc.
 Definition sc (stream preparse : bool) : scfg := Build_scfg stream preparse.
 
 Inductive c35case :=
@@ -18,8 +18,9 @@ Inductive c35case :=
 | CBig (same : bool)
 (* readMultipartForm(r, boundary, size, max_mem) / Request.Read called directly on a body with the given file
    part sizes, well-formed or not, with size (Content-Length) covering more bytes than r delivers or not:
-   did it return a form, and the TMPDIR listing right after the call *)
-| CReadFiles (max_mem : Z) (sizes : list Z) (wf short : bool) (ok : bool) (remaining : list Z)
+   did it return a form, the TMPDIR listing right after the call, and after the owner of the form was reset
+   (Request.Reset / ReleaseRequest / reading the next request into the same Request / Form.RemoveAll) *)
+| CReadFiles (max_mem : Z) (sizes : list Z) (wf short : bool) (ok : bool) (remaining : list Z) (after_reset : list Z)
 (* one connection: server options, the events, the TMPDIR listing (sorted sizes) after each event
    where it can be observed, files of earlier requests still present at each dispatch / after the
    close (not counting files owned by timed-out requests) *)
@@ -69,7 +70,7 @@ Definition corr_ok (x : c35case) : bool :=
       end
   | CRead b size input impl => oform_eqb (read_form b size input) impl
   | CBig _ => true
-  | CReadFiles mm sizes wf short ok lft =>
+  | CReadFiles mm sizes wf short ok lft _ =>
       let (f, disk) := rmf mm sizes wf short [] in
       Bool.eqb (match f with Some _ => true | None => false end) ok && list_eqb Z.eqb (sortz disk) lft
   | CHist c tr obs _ => obs_match (ctrace c cinit tr) obs
@@ -84,6 +85,7 @@ Definition prop_ok (x : c35case) : bool :=
       else true
   | CRead _ _ _ _ => true
   | CBig same => same
-  | CReadFiles _ _ _ _ ok lft => ok || match lft with [] => true | _ => false end   (* an error leaves no file *)
+  | CReadFiles _ _ _ _ ok lft after =>        (* an error leaves no file; Reset / ReleaseRequest / the next Read leaves none either *)
+      (ok || match lft with [] => true | _ => false end) && match after with [] => true | _ => false end
   | CHist _ _ _ leftover => forallb (Z.eqb 0) leftover
   end.
